@@ -68,6 +68,15 @@ TARGETED = [
         {"name": "second", "type": "ns.Item"},
         {"name": "kinds", "type": {"type": "array", "items": "ItemKind"}, "default": []}]},
      [{"first": {"kind": "B", "n": 1}, "second": {"n": 2}, "kinds": ["A", "B"]}, {"first": {}, "second": {"kind": "B"}}]),
+    # string defaults of unions next to named types they are not meant for (another size, not a
+    # symbol); the named types are defined inside those unions, so only the piecewise form has references there
+    ({"type": "record", "name": "Cfg", "namespace": "d", "fields": [
+        {"name": "u", "type": [{"type": "fixed", "name": "F6", "size": 6}, "string"], "default": "ab"},
+        {"name": "v", "type": ["null", {"type": "enum", "name": "Lvl", "symbols": ["LO", "HI"]}, "string"], "default": "neither"},
+        {"name": "id", "type": "F6"}, {"name": "lvl", "type": "d.Lvl"},
+        {"name": "w", "type": ["d.Lvl", "bytes"], "default": "HI"},
+        {"name": "x", "type": ["d.F6", "bytes"], "default": "abcdef"}]},
+     [{"id": b"123456", "lvl": "HI"}, {"id": b"abcdef", "lvl": "LO", "u": "s", "v": "LO", "w": b"b", "x": b"x"}]),
     # a null-namespace record nested in a namespaced one, below a non-record top level (parsing the
     # parsed form again must not move it, and what it defines, into the enclosing namespace)
     ({"type": "array", "items": {"type": "record", "name": "Outer", "namespace": "geo", "fields": [
@@ -512,7 +521,7 @@ def run_shard(spec):
     i = 0
     while i < spec["n"] and not sh.out_of_time():
         i += 1
-        case = gen_case(rng, dict(bytes_defaults=0.4, null_ns_inside=0.05, max_nodes=16, max_depth=4, logical=rng.random() < 0.15),
+        case = gen_case(rng, dict(bytes_defaults=0.4, union_default_any=True, null_ns_inside=0.05, max_nodes=16, max_depth=4, logical=rng.random() < 0.15),
                         dict(size_budget=30, big=0.0, mappings=0.0))
         if RC.raw_under_logical(case["node"], case["datum"]):
             continue
